@@ -30,7 +30,11 @@ RULE = ("Hypothesis draws the structure - coefficient-vector length 1..60 (thoro
         "modes, or of both in opposite directions, for lstsq of the data and (separately) of all modes alike, for Interferogram.pvr of the heights; sum_of_2d_modes also with modes that "
         "are NaN at a quarter of the samples (the sum is NaN there and right elsewhere) and with one mode array object given at two places of the sequence "
         "(with independent or equal weights); lstsq also with the data being the very array object of one of the modes (the fit is that unit vector), lstsq also with modes that hold NaN / +-inf / 1e300 / a mixture "
-        "at the samples the fit is told to ignore (all modes, or one of them).  Oracle: the explicit sum  sum_k c_k * mode_k  built by the "
+        "at the samples the fit is told to ignore (all modes, or one of them).  The (n, m) terms and the coefficients of Q2d_nm_c_to_a_b ('iterable') are also given as "
+        "things that can be walked once - zip(ns, ms), a generator expression, iter(list), map(...) - and as the keys / values views of a dict; the cosine / sine "
+        "tables of compute_z_zprime_Q2d ('iterable of iterables') as list, tuple, iter(list), generator (new objects for every call; the per-order vectors stay "
+        "sized containers, as do the coefficient vectors of the 1-D sums, which the unchanged code takes len() of); Jacobi (alpha, beta) also nearly equal / next "
+        "to the Chebyshev and Legendre values (relative 1e-12 .. 1e-4).  Oracle: the explicit sum  sum_k c_k * mode_k  built by the "
         "harness from the scalar mode functions (jacobi, Qbfs, Qcon, Q2d, zernike_nm) or from the mode arrays "
         "themselves (sum_of_2d_modes); structural laws of the Q2d coefficient packer; for lstsq the synthesising "
         "coefficients, invariance under exchanging one non-finite marker for another, and for data that is not in the "
@@ -327,6 +331,8 @@ def check_tensor(case, ctx):
 
 # ---- Jacobi Clenshaw -------------------------------------------------------------------------------
 _AB = [-0.5, 0.5, 0, 1, 2, 4, 1.5, -0.75, 0.25, 3]
+_NEARLY = [1e-4, -3e-5, 1e-5, -3e-6, 1e-6, -1e-7, 1e-9, -1e-12]      # relative distance from an equality-defined special case
+_TINY = [0.0, 1e-9, -1e-9, 3e-9, -5e-9, 1e-8]
 
 
 def strat_jacobi(tier):
@@ -335,7 +341,15 @@ def strat_jacobi(tier):
                    # on and next to the special lines alpha+beta = 0 and alpha+beta = -1
                    U.nice_float(-0.95, 0.95).map(lambda a: [a, -a]),
                    st.tuples(U.nice_float(-0.95, 0.95), st.sampled_from([5.5e-17, -1.1e-16, 1e-15, 1e-12, -1e-9, 1e-6])).map(lambda t: [t[0], -t[0] + t[1]]),
-                   st.tuples(U.nice_float(-0.95, -0.05), st.sampled_from([0.0, 1.1e-16, -2.2e-16, 1e-12, -1e-9])).map(lambda t: [t[0], -1.0 - t[0] + t[1]]))
+                   st.tuples(U.nice_float(-0.95, -0.05), st.sampled_from([0.0, 1.1e-16, -2.2e-16, 1e-12, -1e-9])).map(lambda t: [t[0], -1.0 - t[0] + t[1]]),
+                   # nearly, but not exactly, equal parameters (next to the ultraspherical case alpha = beta) and pairs next to the Chebyshev
+                   # half-integer / Legendre values, relative 1e-12 .. 1e-4: ordinary pairs
+                   st.tuples(st.one_of(st.sampled_from(_AB), U.nice_float(-0.95, 6.0)), st.sampled_from(_NEARLY), st.booleans()).map(
+                       lambda t: [t[0], t[0] * (1 + t[1]) + (t[1] if t[0] == 0 else 0.0)][::1 if t[2] else -1]),
+                   st.tuples(st.sampled_from([-0.5, 0.5, 0]), st.sampled_from([-0.5, 0.5, 0]), st.sampled_from(_NEARLY), st.sampled_from(_NEARLY)).map(
+                       lambda t: [t[0] + t[2], t[1] - t[3]]),
+                   # next to Legendre's (0, 0) by less than numpy.isclose's default absolute tolerance
+                   st.tuples(st.sampled_from(_TINY), st.sampled_from(_TINY)).filter(lambda t: t != (0.0, 0.0)).map(list))
     return st.fixed_dictionaries({'coefs': coef_spec(LMAX[tier]), 'ab': ab, 'x': point_spec(DMAX[tier]),
                                   'container': st.sampled_from(CONTAINERS_READ_ONLY), 'via': st.sampled_from(['plain', 'plain', 'alphas-buffer', 'alphas-reused', 'alphas-reused', 'der-row0', 'der-alphas']),
                                   'fill': st.sampled_from(['zeros', 'junk', 'nan']),
@@ -359,6 +373,7 @@ def check_jacobi(case, ctx):
     ctx.nt(cls != 'dense' or pcls != 'ndim1' or via != 'plain' or case['container'] != 'array' or history != 'none' or e != 0 or
            (not isinstance(x, float) and (xdtype != 'float64' or layout != 'C')))
     ctx.label(cls, pcls, 'len=%s' % (len(s) if len(s) < 4 else ('4+' if len(s) < 13 else '13+')), 'a+b in {0,-1}' if a + b in (0, -1) else 'general ab',
+              'alpha=beta' if a == b else 'alpha~beta' if abs(a - b) <= 1.5e-4 * max(1.0, abs(a)) else 'alpha!=beta',
               'container:' + case['container'], 'via:' + via, 'history:' + history, exp_label(e),
               *([] if isinstance(x, float) else ['x:' + xdtype, 'layout:' + layout]))
     if e:
@@ -512,6 +527,65 @@ def check_q1d(case, ctx):
 
 
 # ---- Q2d: packer + evaluator -------------------------------------------------------------------------
+# 'nms : iterable', 'coefs : iterable', 'ams / bms : iterable of iterables': besides lists, tuples and arrays also the things a caller builds
+# the terms with - zip(ns, ms), a generator expression, iter(list), map(...), the keys / values views of a {(n, m): c} table.  The first
+# four can be walked exactly once.  (The unchanged packer zips nms and coefs once; the unchanged evaluator zips ams and bms once; the
+# coefficient vector of one azimuthal order and the coefficient vectors of every 1-D sum are taken len() of - those stay sized containers.)
+ONE_SHOT_PAIRS = ['zip', 'generator', 'iterator', 'map']
+ONE_SHOT_COEFS = ['generator', 'iterator', 'map']
+OUTER_AS = ['list', 'list', 'list', 'tuple', 'iterator', 'generator', 'zip']
+
+
+def pairs_arg(nms, how):
+    """the (n, m) terms in the container the case asks for; one-shot kinds are new objects at every call of this function"""
+    nms = [(int(n), int(m)) for n, m in nms]
+    if how == 'lists':
+        return [list(p) for p in nms]
+    if how == 'ndarray':
+        return np.asarray(nms, dtype=np.int64).reshape(len(nms), 2)
+    if how == 'zip':
+        return zip([n for n, _ in nms], [m for _, m in nms])
+    if how == 'generator':
+        return ((n, m) for n, m in nms)
+    if how == 'iterator':
+        return iter(nms)
+    if how == 'map':
+        return map(tuple, [list(p) for p in nms])
+    if how == 'dict-keys':
+        return dict.fromkeys(nms).keys()
+    return list(nms)
+
+
+def coefs_arg(cs, how, nms=None):
+    cs = [float(c) for c in cs]
+    if how == 'array':
+        return np.asarray(cs, dtype=np.float64)
+    if how == 'tuple':
+        return tuple(cs)
+    if how == 'generator':
+        return (c for c in cs)
+    if how == 'iterator':
+        return iter(cs)
+    if how == 'map':
+        return map(float, cs)
+    if how == 'dict-values':
+        return dict(zip(range(len(cs)), cs)).values()
+    return list(cs)
+
+
+def outer_arg(table, how):
+    """the list of per-order coefficient vectors as the outer iterable the case asks for (the row objects are the table's own)"""
+    if how == 'tuple':
+        return tuple(table)
+    if how == 'iterator':
+        return iter(table)
+    if how == 'generator':
+        return (row for row in table)
+    if how == 'zip':
+        return (row for (row,) in zip(table))
+    return table
+
+
 def strat_q2d(tier):
     N, M = {'quick': (20, 12), 'thorough': (40, 24)}[tier]
     n = st.one_of(st.integers(0, 3), st.integers(0, 8), st.integers(0, N))
@@ -547,7 +621,9 @@ def strat_q2d(tier):
                                   # exactly (a term clocked by 45/m degrees); one constant for every term; every coefficient 1
                                   'values': st.sampled_from(['random', 'random', 'mirror', 'mirror', 'constant', 'ones']),
                                   'pts': point_spec(DMAX[tier]).filter(lambda s: s[0] == 'array'),
-                                  'pairs_as': st.sampled_from(['tuples', 'tuples', 'lists', 'ndarray']), 'coefs_as': st.sampled_from(['list', 'list', 'array', 'tuple']),
+                                  'pairs_as': st.sampled_from(['tuples', 'tuples', 'tuples', 'lists', 'ndarray', 'dict-keys'] + ONE_SHOT_PAIRS),
+                                  'coefs_as': st.sampled_from(['list', 'list', 'list', 'array', 'tuple', 'dict-values'] + ONE_SHOT_COEFS),
+                                  'outer_as': st.sampled_from(OUTER_AS),
                                   'udtype': st.sampled_from(['float64', 'float64', 'float64', 'float32']), 'layout': U.layouts, 'seed': U.seeds, 'wexp': wexps})
 
 
@@ -614,20 +690,24 @@ def check_q2d(case, ctx):
     if sin_m - cos_m:
         cls += ':sin-only-order'
     ctx.nt(bool(lonely) or any(v == 1 for v in lens.values()) or case['zero'] == 'some' or np.ndim(u) != 1 or udtype != 'float64' or layout != 'C'
-           or pairs_as != 'tuples' or coefs_as != 'list' or e != 0 or values != 'random')
+           or pairs_as != 'tuples' or coefs_as != 'list' or e != 0 or values != 'random' or case.get('outer_as', 'list') != 'list')
     ctx.label('families=' + fam, 'order-in-one-family' if lonely else 'orders-paired', 'ndim%d' % np.ndim(u), 'values:' + values,
               'has-len1-vector' if any(v == 1 for v in lens.values()) else 'no-len1-vector',
               'unequal-lengths' if any(lens.get(m) != lens.get(-m) for m in cos_m & sin_m) else 'equal-or-unpaired',
               'pairs_as:' + pairs_as, 'coefs_as:' + coefs_as, 'u:' + udtype, 'layout:' + layout,
-              'maxn>=9' if max(n for n, _ in nms) >= 9 else 'maxn<9', exp_label(e))
+              'maxn>=9' if max(n for n, _ in nms) >= 9 else 'maxn<9', exp_label(e), 'packed-tables-given-as:' + case.get('outer_as', 'list'))
     if e:
         cls += ':coefficients-1e%+d' % e
 
-    arg_nms = {'lists': [list(p) for p in nms], 'ndarray': np.asarray(nms, dtype=np.int64).reshape(len(nms), 2)}.get(pairs_as, list(nms))
-    arg_cs = {'array': np.asarray(cs, dtype=np.float64), 'tuple': tuple(cs)}.get(coefs_as, list(cs))
+    arg_nms = pairs_arg(nms, pairs_as)
+    arg_cs = coefs_arg(cs, coefs_as)
+    if pairs_as in ONE_SHOT_PAIRS or coefs_as in ONE_SHOT_COEFS:
+        cls += ':terms-from-a-one-shot-iterable'
     packed = _guard(ctx, cls, Q.Q2d_nm_c_to_a_b, arg_nms, arg_cs)
-    ctx.require([(int(p[0]), int(p[1])) for p in arg_nms] == nms, 'Q2d_nm_c_to_a_b:argument-modified:nms', 'the (n,m) list %r became %r' % (nms, arg_nms))
-    ctx.require(same_values(arg_cs, np.asarray(cs)), 'Q2d_nm_c_to_a_b:argument-modified:coefs', 'the coefficients %r became %r' % (cs, arg_cs))
+    if pairs_as not in ONE_SHOT_PAIRS:       # (a one-shot iterable is used up by the call, there is nothing to compare)
+        ctx.require([(int(p[0]), int(p[1])) for p in arg_nms] == nms, 'Q2d_nm_c_to_a_b:argument-modified:nms', 'the (n,m) list %r became %r' % (nms, arg_nms))
+    if coefs_as not in ONE_SHOT_COEFS:
+        ctx.require(same_values(list(arg_cs), np.asarray(cs)), 'Q2d_nm_c_to_a_b:argument-modified:coefs', 'the coefficients %r became %r' % (cs, arg_cs))
     ctx.require(len(packed) == 3, 'Q2d_nm_c_to_a_b:arity', 'returned %d values' % len(packed))
     cm0, ams, bms = packed
     # structural laws
@@ -658,7 +738,10 @@ def check_q2d(case, ctx):
         cls += ':cosine-and-sine-vectors-equal'
     packed_before = _deep([cm0, ams, bms])
     u_before, t_before = snapshot(u), snapshot(t)
-    res = _guard(ctx, cls, Q.compute_z_zprime_Q2d, cm0, ams, bms, u, t)
+    outer_as = case.get('outer_as', 'list')
+    if outer_as not in ('list', 'tuple'):
+        cls += ':tables-from-a-one-shot-iterable'
+    res = _guard(ctx, cls, Q.compute_z_zprime_Q2d, cm0, outer_arg(ams, outer_as), outer_arg(bms, outer_as), u, t)
     ctx.require(len(res) == 3, 'compute_z_zprime_Q2d:arity', 'returned %d values' % len(res))
     ctx.require(_deep([cm0, ams, bms]) == packed_before, 'compute_z_zprime_Q2d:argument-modified:coefficients',
                 'the packed coefficient vectors were modified by the evaluation (nms=%r)' % (nms,))
@@ -680,7 +763,7 @@ def check_q2d(case, ctx):
     what = 'compute_z_zprime_Q2d sag vs sum c*Q2d for nms=%r cs=%r u.shape=%s (%s, %s)' % (nms, cs, np.shape(u), udtype, layout)
     cmp_sum(res[0], want, mag, 'compute_z_zprime_Q2d:sag:' + cls, what, rtol=rtol)
     kept = np.array(res[0], copy=True)
-    res2 = _guard(ctx, cls, Q.compute_z_zprime_Q2d, cm0, ams, bms, u, t)
+    res2 = _guard(ctx, cls, Q.compute_z_zprime_Q2d, cm0, outer_arg(ams, outer_as), outer_arg(bms, outer_as), u, t)
     U.check_equal(np.asarray(res[0]), kept, 'compute_z_zprime_Q2d:result-overwritten', 'the first sag after a second evaluation')
     cmp_sum(res2[0], want, mag, 'compute_z_zprime_Q2d:repeat:' + cls, 'the same packed vectors again, ' + what, rtol=rtol)
 
@@ -782,7 +865,9 @@ def strat_q2d_direct(tier):
                                   # the sine table repeats the cosine table: equal values in separate objects, the same row objects in two outer
                                   # lists, one table object given for both arguments; the m = 0 vector is the very object of the m = 1 cosine row
                                   'share': st.sampled_from(['none', 'none', 'none', 'equal', 'same-rows', 'same-table', 'cm0-row']),
-                                  'values': st.sampled_from(['random', 'random', 'random', 'ones', 'constant'])})
+                                  'values': st.sampled_from(['random', 'random', 'random', 'ones', 'constant']),
+                                  # ams / bms ('iterable of iterables') as a list, a tuple, or something that can be walked once
+                                  'outer_as': st.sampled_from(OUTER_AS)})
 
 
 def check_q2d_direct(case, ctx):
@@ -830,7 +915,7 @@ def check_q2d_direct(case, ctx):
           ('b-empty' if any(b == 0 and a > 0 for a, b in zip(alens, blens)) else '') or 'paired'
     twins = [i + 1 for i in range(M) if alens[i] and ams[i] == bms[i]]
     ctx.nt(one_only or has1 or np.ndim(u) != 1 or container != 'list' or udtype != 'float64' or layout != 'C' or history != 'none' or e != 0
-           or share != 'none' or values != 'random')
+           or share != 'none' or values != 'random' or case.get('outer_as', 'list') != 'list')
     ctx.label(cls, 'has-len1-vector' if has1 else 'no-len1-vector', 'cm0=%s' % ('None' if cm0 is None else ('empty' if not cm0 else 'given')),
               'M=0' if M == 0 else 'M>0', 'ndim%d' % np.ndim(u), 'container:' + container, 'u:' + udtype, 'layout:' + layout, 'history:' + history,
               exp_label(e), 'share:' + share, 'values:' + values, *_twin_labels(twins, {i + 1: alens[i] for i in range(M)}))
@@ -843,13 +928,21 @@ def check_q2d_direct(case, ctx):
     a_ams = [wrap(v) for v in ams]
     a_bms = a_ams if share == 'same-table' else list(a_ams) if share == 'same-rows' else [wrap(v) for v in bms]
     a_cm0 = a_ams[0] if share == 'cm0-row' else wrap(cm0)
+    outer_as = case.get('outer_as', 'list') if share != 'same-table' else 'list'       # one table object for both families is a list
+    ctx.label('tables-given-as:' + outer_as)
+    if outer_as not in ('list', 'tuple'):
+        cls += ':tables-from-a-one-shot-iterable'
+
+    def tabs():
+        # the two outer iterables of one call (new one-shot objects every time; the vectors inside are the same objects throughout)
+        return outer_arg(a_ams, outer_as), outer_arg(a_bms, outer_as)
     if history == 'single-first':
-        _guard(ctx, cls, Q.compute_z_zprime_Q2d, a_cm0, a_ams, a_bms, points(case['pts'], case['seed'], 0.0, 1.0, 2, 'float32', layout),
+        _guard(ctx, cls, Q.compute_z_zprime_Q2d, a_cm0, *tabs(), points(case['pts'], case['seed'], 0.0, 1.0, 2, 'float32', layout),
                points(case['pts'], case['seed'], 0.0, 2 * np.pi, 3, 'float32', layout))
     elif history == 'other-coefs':
         _guard(ctx, cls, Q.compute_z_zprime_Q2d, None if cm0 is None else wrap([2 * v for v in cm0]), [wrap(v[::-1]) for v in ams], [wrap(v[::-1]) for v in bms], u, t)
     u_before, t_before = snapshot(u), snapshot(t)
-    res = _guard(ctx, cls, Q.compute_z_zprime_Q2d, a_cm0, a_ams, a_bms, u, t)
+    res = _guard(ctx, cls, Q.compute_z_zprime_Q2d, a_cm0, *tabs(), u, t)
     ctx.require(len(res) == 3, 'compute_z_zprime_Q2d:arity', 'returned %d values' % len(res))
     ctx.require(_deep([a_cm0, a_ams, a_bms]) == _deep([cm0, ams, bms]), 'compute_z_zprime_Q2d:argument-modified:coefficients',
                 'the coefficient vectors (%s) were modified by the evaluation: cm0=%r ams=%r bms=%r became %r %r %r' % (container, cm0, ams, bms, a_cm0, a_ams, a_bms))
@@ -872,7 +965,7 @@ def check_q2d_direct(case, ctx):
     what = 'compute_z_zprime_Q2d sag vs explicit sum, cm0=%r ams=%r bms=%r (%s, u %s %s)' % (cm0, ams, bms, container, udtype, layout)
     cmp_sum(res[0], want, mag, 'compute_z_zprime_Q2d:sag:direct:' + cls, what, rtol=rtol)
     kept = np.array(res[0], copy=True)
-    res2 = _guard(ctx, cls, Q.compute_z_zprime_Q2d, a_cm0, a_ams, a_bms, u, t)
+    res2 = _guard(ctx, cls, Q.compute_z_zprime_Q2d, a_cm0, *tabs(), u, t)
     U.check_equal(np.asarray(res[0]), kept, 'compute_z_zprime_Q2d:result-overwritten', 'the first sag after a second evaluation')
     cmp_sum(res2[0], want, mag, 'compute_z_zprime_Q2d:repeat:direct:' + cls, 'the same coefficient objects again, ' + what, rtol=rtol)
 
